@@ -175,6 +175,16 @@ theorem C17_setMax_view {s s' : St} (h : Reachable s) (n : Nat) (hs : step s (.s
     show view (resize s.ring s.cursor n) 0 = _
     rw [view_zero, resize_eq_spec hc]
 
+/-- `SetWindow` — accepted or refused, effective or not — leaves the remembered admissions
+alone: the ring, the cursor and the record of admissions are those of before (the driver's
+rule `window-change-forgot-admissions` is this statement on the implementation's `Q W Q`) -/
+theorem C17_setWindow_keeps_ring {s s' : St} (w : Nat) (hs : step s (.setWindow w) = some s') :
+    s'.ring = s.ring ∧ s'.cursor = s.cursor ∧ s'.got = s.got := by
+  simp only [step] at hs
+  split at hs
+  · simp at hs
+  · split at hs <;> (simp only [Option.some.injEq] at hs; subst hs; exact ⟨rfl, rfl, rfl⟩)
+
 /-! ### non-vacuity: concrete runs that exercise the hypotheses -/
 
 /-- N = 2, W = 10: two admissions at 0, the third must wait until 10 -/
